@@ -9,6 +9,7 @@ import (
 	"log"
 	"math"
 	"os"
+	"slices"
 	"sync"
 	"time"
 	"unsafe"
@@ -619,6 +620,12 @@ func (cachefile *cacheFile) setData(streamID uint64, streamTime time.Time, conve
 		}
 	}
 
+	// A chunk size of 0 stands for "no chunk in this direction", chunks without content can't be stored.
+	// They carry no data, drop them.
+	convertedPackets = slices.DeleteFunc(slices.Clone(convertedPackets), func(p index.Data) bool {
+		return len(p.Content) == 0
+	})
+
 	writer := bufio.NewWriter(cachefile.file)
 	// Write stream header
 	streamSection := converterStreamSection{
@@ -679,7 +686,8 @@ func (cachefile *cacheFile) setData(streamID uint64, streamTime time.Time, conve
 			return fmt.Errorf("failed to write relative packet time: %w", err)
 		}
 		streamSize += uint64(bytesWritten)
-		lastTime = lastTime.Add(relTime)
+		// advance by what was stored, the next chunk is relative to the time a reader reconstructs
+		lastTime = lastTime.Add(time.Duration(relTime.Microseconds()) * time.Microsecond)
 
 		ct := convertedPacket.ContentType
 		if ct == "" {
